@@ -253,6 +253,11 @@ def run(ctx):
     n = r8merge.check(ctx, ctx.need_fn(prog, "merge_requests"), "R8.merge",
                       {"off": "*segs[%d].off", "len": "*segs[%d].len", "addr": "*segs[%d].buf_addr", "n": "*nsegs"})
     ctx.require(n >= 1000, "R8.merge: only %d segment lists evaluated" % n)
+    from rules import r8recsplit
+    ctx.rule("R8.recsplit", "ncmpio_add_record_requests: the per-record sub-requests address exactly the records of the request (bounded)")
+    gprog = ctx.program(names=["ncmpio_i_getput.c"])
+    nr = r8recsplit.check(ctx, ctx.need_fn(gprog, "ncmpio_add_record_requests"), "R8.recsplit")
+    ctx.require(nr >= 90, "R8.recsplit: only %d requests evaluated" % nr)
     from rules import r8contig
     ctx.rule("R8.contig", "a request classified contiguous by is_request_contiguous is one run of consecutive elements (bounded)")
     fprog = ctx.program(names=["ncmpio_filetype.c"])
